@@ -71,7 +71,7 @@ def mkSt (j : Json) : Except String St := do
   let mapped ← mappedJ.mapM fun x =>
     if x.isNull then pure none else (do return some (← (fromJson? x : Except String Nat)))
   return ⟨fs, none, 0, fun i => valid.toList.getD i true, fun i => mapped.getD i none,
-    fun _ => none, false⟩
+    fun _ => none, false, fun _ => none⟩
 
 def mkFaults (j : Json) : Except String (Nat → Option Nat) := do
   let fs ← getArr j "faults"
@@ -95,6 +95,33 @@ def effJ : Eff → List Json
   | .rmdirTmp => [Json.str "rmdir"]
   | .invalidate i => [Json.str "invalidate", toJson i]
   | .loadSmall i _ => [Json.str "load", toJson i]
+  | .truncate n => [Json.str "truncate", toJson n]
+  | .openW w => [Json.str "openw", toJson w]
+  | .seekW w o => [Json.str "seekw", toJson w, toJson o]
+  | .writeW w bs => [Json.str "writew", toJson w, toJson bs.length]
+  | .closeW w => [Json.str "closew", toJson w]
+
+/-- Writer effects given explicitly (parallel writer: the observed schedule). Only effects on the
+temporary file are accepted. -/
+def getWriterEff (x : Json) : Except String Eff := do
+  let a ← (fromJson? x : Except String (Array Json))
+  let tag ← (fromJson? a[0]! : Except String String)
+  let nat (i : Nat) : Except String Nat := (fromJson? a[i]! : Except String Nat)
+  let bytes (i : Nat) : Except String Bytes := do
+    let v ← (fromJson? a[i]! : Except String (Array Nat))
+    return v.toList
+  match tag with
+  | "open" => return .openTmp
+  | "truncate" => return .truncate (← nat 1)
+  | "close" => return .closeTmp
+  | "cb" => return .callback (← nat 1)
+  | "seek" => return .seek (← nat 1)
+  | "write" => return .write (← bytes 1)
+  | "openw" => return .openW (← nat 1)
+  | "seekw" => return .seekW (← nat 1) (← nat 2)
+  | "writew" => return .writeW (← nat 1) (← bytes 2)
+  | "closew" => return .closeW (← nat 1)
+  | t => throw s!"not a writer effect: {t}"
 
 def stepJ (s : Step) : Json := Json.arr (effJ s.eff ++ [Json.bool s.failed]).toArray
 
@@ -135,6 +162,10 @@ def run (j : Json) : Except String Json := do
     | "unload" => do
         let cfg : Cfg := ⟨⟨← getStr j "dest", newMode⟩, ← getTensors j "tensors", cb⟩
         pure (unload cfg (← getExts j "small") f s0, overwritten cfg s0, invalidated cfg s0)
+    | "writer" => do
+        let cfg : Cfg := ⟨⟨← getStr j "dest", newMode⟩, ← getTensors j "tensors", cb⟩
+        let writer ← (← getArr j "writer").mapM getWriterEff
+        pure (saveWriter cfg writer f 0 s0, overwritten cfg s0, invalidated cfg s0)
     | "sharded" => do
         let jobs ← (← getArr j "jobs").mapM fun x => do
           let a ← (fromJson? x : Except String (Array Json))
@@ -146,7 +177,11 @@ def run (j : Json) : Except String Json := do
   let crash := match res.steps.find? (·.failed) with
     | some st => stJ univ exts st.st
     | none => Json.null
+  let crashLast := match (res.steps.filter (·.failed)).getLast? with
+    | some st => stJ univ exts st.st
+    | none => Json.null
   return obj [
+    ("crashLast", crashLast),
     ("trace", Json.arr (res.steps.map stepJ).toArray),
     ("raised", Json.bool res.faulted),
     ("final", stJ univ exts res.final),
@@ -157,6 +192,11 @@ def run (j : Json) : Except String Json := do
 def handle : Handler := fun m j =>
   match m with
   | "asave.run" => some (run j)
+  | "asave.resolve" => some do
+      let ls ← (← getArr j "links").mapM fun x => do
+        let a ← (fromJson? x : Except String (Array String))
+        return (a[0]!, a[1]!)
+      return obj [("r", Json.str (destinationOf ls (← getStr j "requested")))]
   | "asave.image" => some do return obj [("r", natsJ (image (← getTensors j "tensors")))]
   | "asave.writeat" => some do
       let bs ← (j.getObjValAs? (Array Nat) "bs")
